@@ -97,6 +97,30 @@ def py_select_exhaustive(nk: int, nm: int):
     return run
 
 
+def py_select_weighted(nk: int, nm: int, w: int, fix_first: bool):
+    """Every kill map with ``nk`` assertions that each kill exactly ``w`` of ``nm`` mutants (overlapping covers:
+    the shape in which two kept assertions can be redundant only thanks to each other).  With ``fix_first`` the
+    first assertion kills mutants 0..w-1 (the remaining maps are renamings of these)."""
+    import itertools
+
+    def run():
+        keys = [(i // 2, i % 2) for i in range(nk)]
+        subsets = [frozenset(c) for c in itertools.combinations(range(nm), w)]
+        firsts = [subsets[0]] if fix_first else subsets
+        cases = 0
+        for first in firsts:
+            for combo in itertools.product(subsets, repeat=nk - 1):
+                cases += 1
+                km = {k: set(s) for k, s in zip(keys, (first, *combo))}
+                if not _select_ok(km):
+                    return {"ok": False, "cases": cases, "nontrivial": cases, "violation": {"kill_map": repr(km)},
+                            "detail": f"_select_minimal_assertions violates the set-cover contract on {km!r}"}
+        return {"ok": True, "cases": cases, "nontrivial": cases, "samples": [],
+                "detail": f"all {cases} kill maps with {nk} assertions killing {w} of {nm} mutants each"}
+
+    return run
+
+
 # ---------------------------------------------------------------- _MutationMetrics.get_score
 def h_score(created: int, killed: int, timeout: int) -> bool:
     """
@@ -350,6 +374,7 @@ def obligations(tier: str):
             Chx("select_k3", h_select, timeout=T, fix={"nk": 3, "nm": 3}, split={"m0": [0, 1, 2, 3, 4, 5, 6, 7]}),
             Chx("select_k4", h_select, timeout=T, fix={"nk": 4, "nm": 2}, split={"m0": [0, 1, 2, 3]}),
             Py("select_enum_k4", py_select_exhaustive(4, 4), replay_fn=None),
+            Py("select_enum_k4_m7_w3", py_select_weighted(4, 7, 3, True), replay_fn=None),
             Chx("pipeline_m2", h_pipeline, timeout=T, fix={"created": 2, "minimize": True, "cut": False, "e0": False},
                 split={"exc_stmt": [False, True], "s0": [1, 3]}),
             Py("pipeline_enum_m2", py_pipeline_exhaustive(2), replay_fn=h_pipeline),
@@ -359,6 +384,7 @@ def obligations(tier: str):
             Chx("select_k3", h_select, timeout=T, fix={"nk": 3, "nm": 4}, split={"m0": list(range(16))}),
             Chx("select_k4", h_select, timeout=T, fix={"nk": 4, "nm": 3}, split={"m0": list(range(8))}),
             Py("select_enum_k5", py_select_exhaustive(5, 4), replay_fn=None),
+            Py("select_enum_k4_m7_w3_all", py_select_weighted(4, 7, 3, False), replay_fn=None),
             Chx("pipeline_m2", h_pipeline, timeout=T, fix={"created": 2},
                 split={"minimize": [False, True], "exc_stmt": [False, True], "cut": [False, True], "s0": [0, 1, 2, 3]}),
             Py("pipeline_enum_m3", py_pipeline_exhaustive(3), replay_fn=h_pipeline),
